@@ -120,14 +120,45 @@ func init() {
 }
 
 // malformedNumberOnly: the block is reached only after errors.Is(err,
-// strconv.ErrRange) was found false for a json.Number conversion error.
+// strconv.ErrRange) was found false for the error of the number's conversion
+// to float64.
 func malformedNumberOnly(b *ssa.BasicBlock) bool {
 	for _, f := range factsAt(b) {
 		c, ok := f.Cond.(*ssa.Call)
 		if !ok || f.Truth || calleeQualified(&c.Call) != "errors.Is" || len(c.Call.Args) != 2 {
 			continue
 		}
-		if g := loadedGlobal(c.Call.Args[1]); g != nil && g.Pkg != nil && g.Pkg.Pkg.Path() == "strconv" && g.Name() == "ErrRange" {
+		if g := loadedGlobal(c.Call.Args[1]); g != nil && g.Pkg != nil && g.Pkg.Pkg.Path() == "strconv" && g.Name() == "ErrRange" && floatConversionError(c.Call.Args[0], 0) {
+			return true
+		}
+	}
+	return false
+}
+
+// floatConversionError: v is the error of the widest conversion of a number's
+// text, (json.Number).Float64 or strconv.ParseFloat. The error of Int64 not
+// being a range error says nothing about the text: "1e400" and "1.5" fail
+// Int64 with a syntax error and are valid JSON numbers.
+func floatConversionError(v ssa.Value, depth int) bool {
+	v = stripConvPlain(v)
+	if depth > 4 {
+		return false
+	}
+	switch x := v.(type) {
+	case *ssa.Phi:
+		for _, e := range x.Edges {
+			if !floatConversionError(e, depth+1) {
+				return false
+			}
+		}
+		return len(x.Edges) > 0
+	case *ssa.Extract:
+		c, ok := x.Tuple.(*ssa.Call)
+		if !ok || !isErrorType(x.Type()) {
+			return false
+		}
+		switch calleeQualified(&c.Call) {
+		case "encoding/json.Float64", "strconv.ParseFloat":
 			return true
 		}
 	}
@@ -267,7 +298,7 @@ func init() {
 	register(ruleSilentDefault, ruleItemTypes)
 	addProp(&PropSpec{
 		ID:          "C01",
-		Rules:       []string{"R-EXH", "R-SILENTDEFAULT", "R-ITEMTYPES", "R-TOWER", "R-ONELEVEL", "R-MODEGUARD", "R-FILTER", "R-KLEENE", "R-PREDLOOP", "R-CMPTABLE", "R-ZONE", "R-TRAVERSAL", "R-SUBEVAL", "R-LAST", "R-FAILSTOP", "R-STATE", "R-SCOPE", "R-OVF", "R-TRUNC", "R-LITCHAIN", "R-PREC", "R-EMPTYPROD", "R-EXECADDR", "R-F2I", "R-EXACTCMP", "R-EMITORDER", "R-COLLMONO", "R-NEXTBLIND", "R-ARITHOP", "R-FOUNDKEPT", "R-GATE", "R-OPERANDORDER", "R-UNWRAPTHREAD"},
+		Rules:       []string{"R-EXH", "R-SCRATCHSTATUS", "R-SILENTDEFAULT", "R-ITEMTYPES", "R-TOWER", "R-ONELEVEL", "R-MODEGUARD", "R-FILTER", "R-KLEENE", "R-PREDLOOP", "R-CMPTABLE", "R-ZONE", "R-TRAVERSAL", "R-SUBEVAL", "R-LAST", "R-FAILSTOP", "R-STATE", "R-SCOPE", "R-OVF", "R-TRUNC", "R-LITCHAIN", "R-PREC", "R-EMPTYPROD", "R-EXECADDR", "R-F2I", "R-EXACTCMP", "R-EMITORDER", "R-COLLMONO", "R-NEXTBLIND", "R-ARITHOP", "R-FOUNDKEPT", "R-GATE", "R-OPERANDORDER", "R-UNWRAPTHREAD"},
 		Explanation: "Conformance of Query is a statement about values; the part of it that is a shape of the code is that parser and executor speak the same vocabulary: every node shape and enum constant that a grammar action can construct (computed by abstract interpretation of the goyacc actions) has an executor arm that neither falls into the implementation-bug error nor into a silent 'not found'; every produced item is of a documented item type; the numeric representations are handled together. A feature added to the grammar without an executor arm, or a case list that loses a member, breaks conformance for every path using it and passes a suite that has no row for it.",
 		Decided: []string{"R-EXH: no feasible ErrInvalid for parser-produced paths (today: 5 known findings, D3)", "R-SILENTDEFAULT: no operator switch answers a buildable node with a silent 'not found'",
 			"R-ITEMTYPES: produced items stay inside the 13-type universe", "R-TOWER: numeric representations are siblings",
